@@ -351,6 +351,15 @@ func zzRunBubble(r *sim.Run, focus string) {
 	if focus == "C13" && t.Bool("bursts", 1, 2) {
 		burstMax = []int{8, 64, 1100, 2300}[t.Choose("burst.max", 4)]
 	}
+	// a slow disk: for a stretch of the run the goroutine that does the plotting work is passed
+	// over while anybody else can run (requests pile up behind a plot that does not advance)
+	if t.Bool("stall.plot", 1, 3) {
+		from := t.Choose("stall.from", 300)
+		length := []int{300, 3000, 40000}[t.Choose("stall.len", 3)]
+		b.Stalled = func(site string, step int) bool {
+			return step >= from && step < from+length && strings.Contains(site, "massdb")
+		}
+	}
 	maxSteps := 8000 + burstMax*3*10
 	var stopHung, clientsHung bool
 	var liveAfter []string
@@ -460,6 +469,9 @@ func zzRunBubble(r *sim.Run, focus string) {
 	r.Preempts += b.Preempt
 	r.Ops += len(z.calls)
 	r.Count("sched-steps", b.Steps)
+	if b.StalledSteps > 0 {
+		r.Fault("plot-goroutine-stalled")
+	}
 	for site, n := range b.Sites {
 		if n > 0 && strings.Contains(site, "space_plotter.go") {
 			r.Count("site:"+site[strings.LastIndex(site, "/")+1:], n)
